@@ -398,7 +398,17 @@ func inject(k *h.Case, g *spec.Gen, prog *spec.Program, baseOut string) *injecti
 			if len(subs) == 0 {
 				return nil
 			}
+			// (deterministic order; one time in three the highest-numbered sub-label, the last chunk of the script)
+			sort.Slice(subs, func(i, j int) bool {
+				if len(subs[i]) != len(subs[j]) {
+					return len(subs[i]) < len(subs[j])
+				}
+				return subs[i] < subs[j]
+			})
 			name = subs[r.IntN(len(subs))]
+			if r.IntN(3) == 0 {
+				name = subs[len(subs)-1]
+			}
 		}
 		st := &spec.Label{ID: prog.NewID(), Name: name}
 		insertStmt(bc.b, r.IntN(safeLen(bc.b)+1), st)
